@@ -686,7 +686,12 @@ fn main() {
             }
         }
         Some("replay") => {
-            let v: Value = serde_json::from_str(&args[2]).expect("json");
+            // `@path` = read the JSON from a file (a script may exceed the argv limit)
+            let text = match args[2].strip_prefix('@') {
+                Some(path) => std::fs::read_to_string(path).expect("replay file"),
+                None => args[2].clone(),
+            };
+            let v: Value = serde_json::from_str(&text).expect("json");
             let mut rep = Report::default();
             match v["kind"].as_str() {
                 Some("layout") => {
